@@ -93,6 +93,22 @@ func runC14(c *fw.Case) {
 		}
 		return "other:" + e.Error()
 	}
+	// keys of the pure lookup / delete calls (which never store the key) go through ONE reused buffer that is
+	// overwritten right after the call: nothing may remember it
+	lookBuf := make([]byte, 0, 64)
+	lk := func(k []byte) []byte {
+		if len(k) == 0 {
+			return k
+		}
+		lookBuf = append(lookBuf[:0], k...)
+		c.Obs("lookups_through_a_reused_key_buffer", 1)
+		return lookBuf
+	}
+	scribble := func() {
+		for i := range lookBuf[:cap(lookBuf)] {
+			lookBuf[:cap(lookBuf)][i] = 0xEE
+		}
+	}
 	var trace []string
 	note := func(s string) {
 		if len(trace) < 400 {
@@ -160,7 +176,8 @@ func runC14(c *fw.Case) {
 			model[ks] = &c14ent{val: append([]byte{}, v...)}
 		case 5: // Delete
 			note(fmt.Sprintf("Delete(%x)", k))
-			err := m.Delete(k)
+			err := m.Delete(lk(k))
+			scribble()
 			if e == nil {
 				expect("Delete", err, "KeyNotFound")
 			} else {
@@ -172,7 +189,8 @@ func runC14(c *fw.Case) {
 			}
 		case 6: // DeleteIfExists
 			note(fmt.Sprintf("DeleteIfExists(%x)", k))
-			expect("DeleteIfExists", m.DeleteIfExists(k), "nil")
+			expect("DeleteIfExists", m.DeleteIfExists(lk(k)), "nil")
+			scribble()
 			if e != nil {
 				if !e.tomb {
 					sawDelPresent = true
@@ -192,7 +210,8 @@ func runC14(c *fw.Case) {
 			if len(k) == 0 && r.Intn(2) == 0 {
 				kk = nil // a nil key is the empty key for the read methods
 			}
-			v, err := m.Get(kk)
+			v, err := m.Get(lk(kk))
+			scribble()
 			switch {
 			case e == nil:
 				expect("Get", err, "KeyNotFound")
@@ -207,13 +226,17 @@ func runC14(c *fw.Case) {
 		case 10: // Contains
 			c.Obs("calls_compared", 1)
 			want := e != nil && !e.tomb
-			if got := m.Contains(k); got != want {
+			got := m.Contains(lk(k))
+			scribble()
+			if got != want {
 				c.Violate("memstore/Contains", "Contains(%x)=%v want %v\ntrace: %v", k, got, want, trace)
 			}
 		case 11: // IsTombstoned
 			c.Obs("calls_compared", 1)
 			want := e != nil && e.tomb
-			if got := m.IsTombstoned(k); got != want {
+			got := m.IsTombstoned(lk(k))
+			scribble()
+			if got != want {
 				c.Violate("memstore/IsTombstoned", "IsTombstoned(%x)=%v want %v\ntrace: %v", k, got, want, trace)
 			}
 		case 12: // Size + estimate
